@@ -374,4 +374,280 @@ theorem seeComponent_ok (vars : List (Name × QTy)) :
         · exact Or.inr (Or.inr (Or.inr h))
 
 
+/-! ### outputs of compiled queries -/
+
+theorem mem_insertOutput {o x : OutputDef} {l : List OutputDef} :
+    x ∈ insertOutput o l ↔ x = o ∨ x ∈ l := by
+  induction l with
+  | nil => simp [insertOutput]
+  | cons y rest ih =>
+    simp only [insertOutput]
+    split
+    · simp
+    · simp only [List.mem_cons, ih]
+      constructor
+      · rintro (h | h | h)
+        · exact Or.inr (Or.inl h)
+        · exact Or.inl h
+        · exact Or.inr (Or.inr h)
+      · rintro (h | h | h)
+        · exact Or.inr (Or.inl h)
+        · exact Or.inl h
+        · exact Or.inr (Or.inr h)
+
+theorem mem_sortOutputs {x : OutputDef} {l : List OutputDef} : x ∈ sortOutputs l ↔ x ∈ l := by
+  induction l with
+  | nil => simp [sortOutputs]
+  | cons y rest ih =>
+    simp only [sortOutputs, List.foldr_cons] at ih ⊢
+    rw [mem_insertOutput, ih]; simp
+
+theorem count_insertOutput (o : OutputDef) (l : List OutputDef) (x : Name) :
+    ((insertOutput o l).map (·.name)).count x = ([o.name].count x) + (l.map (·.name)).count x := by
+  induction l with
+  | nil => simp [insertOutput]
+  | cons y rest ih =>
+    simp only [insertOutput]
+    split
+    · simp [List.count_cons]; omega
+    · simp only [List.map_cons, List.count_cons, ih]
+      simp only [List.count_nil]
+      omega
+
+theorem count_sortOutputs (l : List OutputDef) (x : Name) :
+    ((sortOutputs l).map (·.name)).count x = (l.map (·.name)).count x := by
+  induction l with
+  | nil => simp [sortOutputs]
+  | cons y rest ih =>
+    simp only [sortOutputs, List.foldr_cons] at ih ⊢
+    rw [count_insertOutput, ih]
+    simp [List.count_cons]; omega
+
+theorem count_insertName (n : Name) (l : List Name) (x : Name) :
+    (insertName n l).count x ≤ [n].count x + l.count x := by
+  induction l with
+  | nil => simp [insertName]
+  | cons y rest ih =>
+    simp only [insertName]
+    split
+    · simp [List.count_cons]; omega
+    · split
+      · simp [List.count_cons]
+      · simp only [List.count_cons] at ih ⊢
+        simp only [List.count_nil] at ih ⊢
+        omega
+
+theorem count_countOutputs (fds : List FDir) (x : Name) :
+    (countOutputs fds).count x ≤ (countOutputNames fds).count x := by
+  induction fds with
+  | nil => simp [countOutputs, countOutputNames]
+  | cons d rest ih =>
+    cases d with
+    | countOutput o =>
+      simp only [countOutputs, countOutputNames]
+      have := count_insertName o (countOutputs rest) x
+      simp only [List.count_cons, List.count_nil] at this ⊢
+      omega
+    | countTag t => simpa [countOutputs, countOutputNames] using ih
+    | countFilter op arg => simpa [countOutputs, countOutputNames] using ih
+
+theorem outputDirs_names (vid : Vid) (n : Name) (ty : QTy) (dirs : List Dir) :
+    (outputDirs vid n ty dirs).map (·.name) =
+      dirs.filterMap fun d => match d with | .output o => some o | _ => none := by
+  induction dirs with
+  | nil => simp [outputDirs]
+  | cons d rest ih => cases d <;> simp [outputDirs, ih]
+
+theorem outputDirs_vid {vid : Vid} {n : Name} {ty : QTy} {dirs : List Dir} {o : OutputDef}
+    (h : o ∈ outputDirs vid n ty dirs) : o.vid = vid := by
+  induction dirs with
+  | nil => simp [outputDirs] at h
+  | cons d rest ih =>
+    cases d with
+    | output x =>
+      simp only [outputDirs, List.mem_cons] at h
+      rcases h with rfl | h
+      · rfl
+      · exact ih h
+    | filter op arg => exact ih (by simpa [outputDirs] using h)
+    | tag t => exact ih (by simpa [outputDirs] using h)
+
+theorem foldsOutputNames_append (a b : List Fold) :
+    foldsOutputNames (a ++ b) = foldsOutputNames a ++ foldsOutputNames b := by
+  induction a with
+  | nil => simp [foldsOutputNames]
+  | cons f rest ih => cases f; simp [foldsOutputNames, ih]
+
+theorem wfOutputsF_append (a b : List Fold) :
+    wfOutputsF (a ++ b) = (wfOutputsF a && wfOutputsF b) := by
+  induction a with
+  | nil => simp [wfOutputsF]
+  | cons f rest ih => cases f; simp [wfOutputsF, ih, Bool.and_assoc]
+
+/-- all output names in the pieces of a component under construction -/
+def accOutNames (a : Acc) : List Name := a.outs.map (·.name) ++ foldsOutputNames a.folds
+
+theorem accOutNames_append_count (a b : Acc) (x : Name) :
+    (accOutNames (a ++ b)).count x = (accOutNames a).count x + (accOutNames b).count x := by
+  simp [accOutNames, foldsOutputNames_append, List.count_append]; omega
+
+/-- outputs collected at (and below) vertex `vid` are read at vertices of the component -/
+structure OutsOk (vid : Vid) (acc : Acc) : Prop where
+  own : ∀ o ∈ acc.outs, o.vid = vid ∨ o.vid ∈ acc.verts.map (·.vid)
+  folds : wfOutputsF acc.folds = true
+
+theorem OutsOk.append {vid : Vid} {a b : Acc} (ha : OutsOk vid a) (hb : OutsOk vid b) :
+    OutsOk vid (a ++ b) := by
+  refine ⟨?_, by simp [wfOutputsF_append, ha.folds, hb.folds]⟩
+  intro o ho
+  simp only [Acc.append_outs, List.mem_append] at ho
+  simp only [Acc.append_verts, List.map_append, List.mem_append]
+  rcases ho with ho | ho
+  · exact (ha.own o ho).imp id Or.inl
+  · exact (hb.own o ho).imp id Or.inr
+
+theorem OutsOk.reroot {vid w : Vid} {acc : Acc} (hw : w ∈ acc.verts.map (·.vid))
+    (h : OutsOk w acc) : OutsOk vid acc := by
+  refine ⟨?_, h.folds⟩
+  intro o ho
+  rcases h.own o ho with h1 | h1
+  · exact Or.inr (h1 ▸ hw)
+  · exact Or.inr h1
+
+
+theorem finish_outputs {path root acc st comp evs st'}
+    (h : finishComponent path root acc st = .ok (comp, evs, st'))
+    (hroot : root ∈ acc.verts.map (·.vid)) (ho : OutsOk root acc) :
+    wfOutputsC comp = true ∧ ∀ x, (outputNames comp).count x = (accOutNames acc).count x := by
+  obtain ⟨vs, ev, h1, rfl, _⟩ := finishComponent_inv h
+  have hv := (makeVertices_inv h1).2
+  constructor
+  · simp only [wfOutputsC, Bool.and_eq_true, List.all_eq_true, List.contains_eq_mem,
+      decide_eq_true_eq, vertexVids, hv]
+    refine ⟨?_, ho.folds⟩
+    intro o hom
+    rcases ho.own o (mem_sortOutputs.mp hom) with h1 | h1
+    · exact h1 ▸ hroot
+    · exact h1
+  · intro x
+    simp only [outputNames, accOutNames, List.count_append, count_sortOutputs]
+
+theorem fieldsOutputNames_edge {n : Name} {params : Params} {kind : Kind} {child : QNode}
+    {rest : List QField} (hk : ∀ fds, kind = .fold fds → False) :
+    fieldsOutputNames (.edge n params kind child :: rest) =
+      treeOutputNames child ++ fieldsOutputNames rest := by
+  cases kind with
+  | fold fds => exact absurd rfl (hk fds)
+  | plain => simp [fieldsOutputNames]
+  | optional => simp [fieldsOutputNames]
+  | recurse d => simp [fieldsOutputNames]
+
+theorem fieldsOutputNames_prop (vid : Vid) (ty : QTy) (n : Name) (dirs : List Dir)
+    (rest : List QField) :
+    fieldsOutputNames (.prop n dirs :: rest) =
+      (outputDirs vid n ty dirs).map (·.name) ++ fieldsOutputNames rest := by
+  simp only [fieldsOutputNames]
+  congr 1
+  induction dirs with
+  | nil => simp [outputDirs]
+  | cons d ds ih => cases d <;> simp [outputDirs, ih]
+
+theorem outs_spec (S : SchemaView) :
+    (∀ path vid pre node st acc st', fillNode S path vid pre node st = .ok (acc, st') →
+      vid ∈ acc.verts.map (·.vid) ∧ OutsOk vid acc ∧
+        ∀ x, (accOutNames acc).count x ≤ (treeOutputNames node).count x) ∧
+    (∀ path vid ty fields st acc st', fillFields S path vid ty fields st = .ok (acc, st') →
+      OutsOk vid acc ∧ ∀ x, (accOutNames acc).count x ≤ (fieldsOutputNames fields).count x) := by
+  apply fill_induct S
+    (P1 := fun _ vid _ node _ acc _ => vid ∈ acc.verts.map (·.vid) ∧ OutsOk vid acc ∧
+      ∀ x, (accOutNames acc).count x ≤ (treeOutputNames node).count x)
+    (P2 := fun _ vid _ fields _ acc _ => OutsOk vid acc ∧
+      ∀ x, (accOutNames acc).count x ≤ (fieldsOutputNames fields).count x)
+  · -- node
+    intro path vid pre coerceTo fields st post acc1 st' _ _ ih
+    refine ⟨by simp, OutsOk.append ⟨by simp, rfl⟩ ih.1, ?_⟩
+    intro x
+    rw [accOutNames_append_count]
+    have := ih.2 x
+    simp only [treeOutputNames]
+    simp [accOutNames, foldsOutputNames] at this ⊢
+    exact this
+  · -- nil
+    intro path vid ty st
+    exact ⟨⟨by simp, rfl⟩, by intro x; simp [accOutNames, foldsOutputNames, fieldsOutputNames]⟩
+  · -- prop
+    intro path vid ty n dirs rest st pty st1 acc1 st' _ _ _ ih
+    refine ⟨OutsOk.append ⟨?_, rfl⟩ ih.1, ?_⟩
+    · intro o ho
+      exact Or.inl (outputDirs_vid ho)
+    · intro x
+      rw [accOutNames_append_count]
+      have := ih.2 x
+      rw [fieldsOutputNames_prop vid pty]
+      simp only [List.count_append]
+      simp only [accOutNames, foldsOutputNames, List.append_nil] at this ⊢
+      omega
+  · -- fold
+    intro path vid ty n params fds child rest st ed ps accIn st2 comp evs st3 post evPost st4 st5
+      accR st' _ _ _ h4 _ _ _ ihC ihR
+    obtain ⟨f1, f2⟩ := finish_outputs h4 ihC.1 ihC.2.1
+    refine ⟨OutsOk.append ⟨by simp, ?_⟩ ihR.1, ?_⟩
+    · simp [mkFold, wfOutputsF, f1]
+    · intro x
+      rw [accOutNames_append_count]
+      have h1 := ihR.2 x
+      have h2 := ihC.2.2 x
+      have h3 := count_countOutputs fds x
+      have h4' := f2 x
+      simp only [fieldsOutputNames, List.count_append]
+      simp only [accOutNames, mkFold, foldsOutputNames, List.map_nil, List.nil_append,
+        List.append_nil, List.count_append] at h1 h2 h4' ⊢
+      omega
+  · -- other edges
+    intro path vid ty n params kind child rest st ed ps r accC st2 accR st' hk _ _ _ _ _ ihC ihR
+    refine ⟨OutsOk.append (OutsOk.append ⟨by simp, rfl⟩ (OutsOk.reroot ihC.1 ihC.2.1)) ihR.1, ?_⟩
+    intro x
+    rw [accOutNames_append_count, accOutNames_append_count, fieldsOutputNames_edge hk]
+    have h1 := ihR.2 x
+    have h2 := ihC.2.2 x
+    simp only [List.count_append]
+    simp only [accOutNames, foldsOutputNames, List.map_nil, List.nil_append, List.count_nil] at h1 h2 ⊢
+    omega
+
+
+/-- `IndexedQuery::try_from` succeeds on every well-formed query whose outputs are read at
+vertices of their own component and have distinct names. -/
+theorem indexed_ok_of_wf {q : IRQuery} (hwf : WF q = true) (ho : outputsOk q = true) :
+    indexedOk q = true := by
+  simp only [WF, Bool.and_eq_true] at hwf
+  obtain ⟨⟨⟨⟨⟨⟨w1, w2⟩, _⟩, w4⟩, _⟩, _⟩, w7⟩ := hwf
+  simp only [wfUnique, Bool.and_eq_true, natsDistinct_iff] at w2
+  simp only [outputsOk, Bool.and_eq_true, namesDistinct_iff] at ho
+  obtain ⟨s', hs, _⟩ := (seeComponent_ok q.variables).1 q.rootComponent {} ⟨w1, w4, w7, ho.1⟩
+    w2.1 w2.2 ho.2 (by intro x _; simp) (by intro x _; simp) (by intro x _; simp)
+  simp [indexedOk, hs]
+
+theorem toIR_outputs_ok {S : SchemaView} {q : Query} {ir : IRQuery} (h : toIR S q = .ok ir) :
+    outputsOk ir = true := by
+  obtain ⟨root, rootParams, acc, st1, comp, evs, st2, vars, _, _, h3, h4, _, _, h7, rfl⟩ := toIR_inv h
+  obtain ⟨hin, hok, hcnt⟩ := (outs_spec S).1 _ _ _ _ _ _ _ h3
+  obtain ⟨f1, f2⟩ := finish_outputs h4 hin hok
+  simp only [outputsOk, Bool.and_eq_true]
+  refine ⟨f1, ?_⟩
+  rw [namesDistinct_iff] at h7 ⊢
+  rw [List.nodup_iff_count] at h7 ⊢
+  intro x
+  have := hcnt x
+  have := h7 x
+  have := f2 x
+  show (outputNames comp).count x ≤ 1
+  omega
+
+/-- The `unwrap()` in `frontend::parse` is safe: `IndexedQuery::try_from` accepts every compiled
+query. -/
+theorem toIR_indexed_ok' {S : SchemaView} {q : Query} {ir : IRQuery} (h : toIR S q = .ok ir)
+    (hwf : WF ir = true) : indexedOk ir = true :=
+  indexed_ok_of_wf hwf (toIR_outputs_ok h)
+
+
 end TF.Frontend
